@@ -278,21 +278,24 @@ impl Scenario for KdfProbe {
                     t.ops.push(Op::new(0, D_HKDF).arg(d).len(l).seed(rng.data_seed()).off(rng.below(40) as u8));
                 }
                 3 | 4 | 5 => {
-                    let c = match rng.below(6) { 0 => 1, 1 => 2, 2 => 3, _ => rng.range(1, 20) };
+                    let c = match rng.below(6) { 0 => 1, 1 => 2, 2 => 3, 3 if tier == Tier::Thorough => rng.range(100, 1000), _ => rng.range(1, 20) };
                     let l = match rng.below(6) { 0 => 1, 1 => 20, 2 => 21, 3 => 64, 4 => 65, _ => rng.range(1, 200) as usize };
                     t.ops.push(Op::new(0, D_PBKDF2).arg(rng.below(3) | (c << 8)).len(l).seed(rng.data_seed()).off(rng.below(40) as u8));
                 }
                 6 => {
-                    let log_n = rng.range(1, if tier == Tier::Thorough { 6 } else { 4 });
-                    let r = rng.range(1, 3);
-                    let p = rng.range(1, 2);
+                    let deep = rng.chance(1, if tier == Tier::Thorough { 4 } else { 12 });
+                    let log_n = rng.range(1, if deep { 10 } else if tier == Tier::Thorough { 6 } else { 4 });
+                    let r = rng.range(1, if deep { 8 } else { 3 });
+                    let p = rng.range(1, if deep { 4 } else { 2 });
                     t.ops.push(Op::new(0, D_SCRYPT).arg(log_n | (r << 8) | (p << 16)).len(rng.range(1, 130) as usize).seed(rng.data_seed()).off(rng.below(20) as u8));
                 }
                 _ => {
-                    let p = rng.range(1, 3);
-                    let m = rng.range(8 * p, 8 * p + 40);
-                    let tt = rng.range(1, 2);
-                    let l = match rng.below(5) { 0 => 4, 1 => 32, 2 => 64, 3 => 65, _ => rng.range(4, 140) as usize };
+                    let deep = rng.chance(1, if tier == Tier::Thorough { 4 } else { 12 });
+                    let p = rng.range(1, if deep { 5 } else { 3 });
+                    // memory from 8p blocks up; deep runs reach segment lengths above 128 and sizes not divisible by 4p
+                    let m = if deep { rng.range(8 * p, 8 * p + 3000) } else { rng.range(8 * p, 8 * p + 40) };
+                    let tt = rng.range(1, if deep { 4 } else { 2 });
+                    let l = match rng.below(5) { 0 => 4, 1 => 32, 2 => 64, 3 => 65, _ => rng.range(4, if deep { 300 } else { 140 }) as usize };
                     t.ops.push(Op::new(0, D_ARGON2).arg(rng.below(3) | (rng.below(2) << 4) | (tt << 8) | (p << 12) | (m << 16)).len(l).seed(rng.data_seed()).off(rng.below(20) as u8));
                 }
             }
@@ -317,16 +320,16 @@ impl Scenario for KdfProbe {
                     obs.out(&okm);
                 }
                 D_PBKDF2 => {
-                    let cnt = (((op.arg >> 8) & 0xffff) as u32).clamp(1, 200);
+                    let cnt = (((op.arg >> 8) & 0xffff) as u32).clamp(1, 1000);
                     let l = (op.len as usize).clamp(1, 400);
                     obs.hit("kdf.pbkdf2");
                     let out = guarded(|| pbkdf2_run(op.arg & 0xff, &a, &b, cnt, l)).map_err(|m| Violation::new("unexpected-panic", i, "pbkdf2 on valid input", m, "pbkdf2"))?;
                     obs.out(&out);
                 }
                 D_SCRYPT => {
-                    let log_n = ((op.arg & 0xff) as u8).clamp(1, 8);
-                    let r = (((op.arg >> 8) & 0xff) as u32).clamp(1, 4);
-                    let p = (((op.arg >> 16) & 0xff) as u32).clamp(1, 3);
+                    let log_n = ((op.arg & 0xff) as u8).clamp(1, 10);
+                    let r = (((op.arg >> 8) & 0xff) as u32).clamp(1, 8);
+                    let p = (((op.arg >> 16) & 0xff) as u32).clamp(1, 4);
                     let l = (op.len as usize).clamp(1, 200);
                     if (log_n as u32) >= r * 16 {
                         continue;
@@ -344,9 +347,9 @@ impl Scenario for KdfProbe {
                 D_ARGON2 => {
                     let ty = op.arg & 0xf;
                     let ver = (op.arg >> 4) & 0xf;
-                    let tt = (((op.arg >> 8) & 0xf) as u32).clamp(1, 3);
-                    let p = (((op.arg >> 12) & 0xf) as u32).clamp(1, 4);
-                    let m = (((op.arg >> 16) & 0xffff) as u32).clamp(8 * p, 256);
+                    let tt = (((op.arg >> 8) & 0xf) as u32).clamp(1, 4);
+                    let p = (((op.arg >> 12) & 0xf) as u32).clamp(1, 5);
+                    let m = (((op.arg >> 16) & 0xffff) as u32).clamp(8 * p, 4096);
                     let l = (op.len as usize).clamp(4, 300);
                     let salt = data(op.seed ^ 0x5a17, 8 + (op.off as usize % 9));
                     let key = data(op.seed ^ 0x4b, (op.off as usize) % 9);
